@@ -416,4 +416,67 @@ Section MAIN.
     1: { rewrite (Hnull eq_refl). cbn [orb]. apply Bool.andb_comm. }
     all: rewrite !Bool.andb_assoc; reflexivity.
   Qed.
+
+  (* ---- unconditionally: validation of a tree schema never panics (the three panic sites of the
+     pinned tree were repaired in /repo: exclusive bound without bound, multipleOf 0, uncompilable
+     pattern in multi-error mode) ---- *)
+  Definition npgood (s : schema) : Prop := forall v, is_panic (V s v) = false.
+
+  Lemma npgoods_list (l : list schema) v : Forall npgood l -> forallb np (map (fun x => V x v) l) = true.
+  Proof.
+    induction l as [|x l IH]; intros HF; [reflexivity|]. inversion HF as [|? ? Hx Hl]; subst.
+    cbn [map forallb]. unfold np at 1. now rewrite (Hx v), (IH Hl).
+  Qed.
+
+  Lemma assoc_flat_in (l : list (string * json)) (props : list (string * schema)) k o :
+    assoc k (flat_map (fun kp : string * schema =>
+                         match assoc (fst kp) l with Some x => [(fst kp, V (snd kp) x)] | None => [] end) props) = Some o ->
+    exists p x, In (k, p) props /\ o = V p x.
+  Proof.
+    induction props as [|[k' p] ps IH]; cbn [flat_map]; [discriminate|]. cbn [fst snd].
+    destruct (assoc k' l) as [x|]; cbn [app assoc].
+    - destruct (String.eqb_spec k k') as [->|Hne].
+      + intros [= <-]. exists p, x. split; [now left|reflexivity].
+      + intros H. destruct (IH H) as (p' & x' & Hin & E). exists p', x'. split; [now right|exact E].
+    - intros H. destruct (IH H) as (p' & x' & Hin & E). exists p', x'. split; [now right|exact E].
+  Qed.
+  Lemma assoc_map_in (l : list (string * json)) (a : schema) k o :
+    assoc k (map (fun kv : string * json => (fst kv, V a (snd kv))) l) = Some o -> exists x, o = V a x.
+  Proof.
+    induction l as [|[k' x] l IH]; cbn [map assoc]; [discriminate|]. cbn [fst snd].
+    destruct (String.eqb k k'); [intros [= <-]; now exists x|exact IH].
+  Qed.
+
+  Theorem visit_np : forall s, npgood s.
+  Proof.
+    apply schema_ind'. intros c n one any all it props ap Hn Hone Hany Hall Hit Hprops Hap v.
+    cbn [visit].
+    destruct (pre_check c v) as [o|] eqn:Hpre.
+    { destruct v; cbn [pre_check] in Hpre; try discriminate.
+      - destruct (permits_null c); [|discriminate]. now inversion Hpre.
+      - destruct (f_is_nan x); [now inversion Hpre|]. destruct (f_is_inf x); [now inversion Hpre|discriminate]. }
+    destruct (is_empty (Sch c n one any all it props ap)).
+    { destruct (is_null v); [|reflexivity]. unfold null_step. destruct (permits_null c); reflexivity. }
+    assert (Anp : opt_all np (option_map (fun x => V x v) n) = true).
+    { destruct n as [x|]; [|reflexivity]. cbn [optP opt_all option_map] in *. unfold np. now rewrite (Hn v). }
+    pose proof (npgoods_list one v Hone) as Onp.
+    pose proof (npgoods_list any v Hany) as Ynp.
+    pose proof (npgoods_list all v Hall) as Lnp.
+    refine (proj1 (comps_part c v _ _ _ _ _ Anp Onp Ynp Lnp _)).
+    destruct ((negb (is_nil one) || negb (is_nil any) || negb (is_nil all)) && is_null v); [reflexivity|].
+    apply seq_nopanic; [apply enum_step_nopanic|].
+    destruct v as [|b|x|x|l|l].
+    - unfold null_step. destruct (permits_null c); reflexivity.
+    - destruct (permits c "boolean"); reflexivity.
+    - apply run_checks_nopanic, num_checks_nopanic.
+    - apply run_checks_nopanic, str_checks_nopanic.
+    - apply run_checks_nopanic, arr_checks_nopanic.
+      destruct it as [its|]; [|reflexivity]. cbn [optP opt_all] in Hit.
+      rewrite forallb_map'. apply forallb_forall. intros x _. now rewrite (Hit x).
+    - apply run_checks_nopanic, obj_checks_nopanic.
+      + intros k o Ho. destruct (assoc_flat_in l props k o Ho) as (p & x & Hin & ->).
+        rewrite Forall_forall in Hprops. exact (Hprops _ Hin x).
+      + intros k o Ho. destruct ap as [a|]; [|discriminate]. cbn [optP opt_all] in Hap.
+        destruct (assoc_map_in l a k o Ho) as (x & ->). apply Hap.
+  Qed.
 End MAIN.
